@@ -3,6 +3,7 @@ import SciVerif.Lemmas.C17b
 import SciVerif.Lemmas.C17w
 import SciVerif.Lemmas.C17x
 import SciVerif.Lemmas.C17q
+import SciVerif.Lemmas.C17i
 import SciVerif.Generated.C17Units
 
 /-!
@@ -496,6 +497,80 @@ theorem C17_refinement_nested_partial (tbl : UnitTable) (lines : List HLine) (it
     (h : sRun tbl (absEnv env) (lines.filterMap HLine.stmt?) = .ok s') :
     ∃ env', items.foldlM (step tbl) env = .ok env' ∧ absEnv env' = s' ∧ Inv tbl env' :=
   refine_runH tbl lines items env s' hinv hrun hc h
+
+/-- Proved part, nested programs WITH IMPORT LINES AT ANY INDENTATION (strictly more programs than
+    `C17_refinement_nested_partial`, which keeps import lines at the root): a program is a list of
+    `NLine`s — every line of the nested theorem (group lines, definitions / modifications /
+    injections at any indent, root imports, property lines) and import lines `pre {source?q}` or
+    `{source?q}` written at ANY indent `i` below any chain of groups.  `ImportNode.parse` hands
+    each copy over with the indent of the import line and the main loop registers every copy with
+    the hierarchy stack (each copy pops its predecessor); the theorem shows that all copies land
+    below the same chain of parents, i.e. exactly where the path-keyed specification's
+    `.imp dest source q` puts them, for every request form (`*`, `p.*`, `p`), local or remote,
+    onto fresh paths or onto existing nodes.  Side conditions (`RunN`, checked along the joint
+    run): those of `RunH` for the old lines; for an import line at indent `i`: `InFrag` of
+    `.imp dest source q`, no `{` in the written prefix `pre`, and `ImpPathOK`: the chain of
+    parents of the line, then `pre`, is `dest` (see `C17_import_path_parents`).  Still missing
+    from `C17_refinement_statement`: declared nodes in `Inv`, hosts by reference as refinement
+    statements, dropping the side conditions. -/
+theorem C17_refinement_nested_imports_partial (tbl : UnitTable) (lines : List NLine) (items : List Item)
+    (env : Env) (s' : SEnv) (hinv : Inv tbl env) (hrun : RunN tbl env lines)
+    (hc : lines.mapM NLine.item = some items)
+    (h : sRun tbl (absEnv env) (lines.filterMap NLine.stmt?) = .ok s') :
+    ∃ env', items.foldlM (step tbl) env = .ok env' ∧ absEnv env' = s' ∧ Inv tbl env' :=
+  refine_runN tbl lines items env s' hinv hrun hc h
+
+/-- the single import line at indent `i` behind it -/
+theorem C17_refinement_import_at_step (tbl : UnitTable) (env : Env) (hinv : Inv tbl env) (i : Nat)
+    (pre dest : List Str) (source : Option Str) (q : SQuery) (s' : SEnv)
+    (hfrag : InFrag (absEnv env) (.imp dest source q)) (hpre : '{' ∉ joinDot pre)
+    (hpath : ImpPathOK env.parents i pre dest)
+    (h : sStep tbl (absEnv env) (.imp dest source q) = .ok s') :
+    ∃ env', step tbl env (.node (impAt i pre source q)) = .ok env' ∧ absEnv env' = s' ∧ Inv tbl env' :=
+  refine_imp_at tbl env hinv i pre dest source q s' hfrag hpre hpath h
+
+/-- the nested-imports theorem contains the nested theorem: a program without indented import
+    lines satisfies `RunN` as soon as it satisfies `RunH` -/
+theorem C17_nested_imports_conservative (tbl : UnitTable) (lines : List HLine) (env : Env)
+    (h : RunH tbl env lines) : RunN tbl env (lines.map NLine.base) :=
+  runN_of_runH tbl lines env h
+
+/-- `ImpPathOK` in its natural form: the destination of an import line `pre {…}` written at
+    indent `i` is the chain of names left on the hierarchy stack (by `C17_paths`: the nearest
+    earlier lines with smaller indentation, outermost first) followed by the written prefix. -/
+theorem C17_import_path_parents (ps : List (Nat × Str)) (i : Nat) (pre : List Str) :
+    ImpPathOK ps i pre (((popParents i ps).reverse.map Prod.snd) ++ pre) :=
+  impPathOK_parents ps i pre
+
+/-- the hypotheses of the indented import step are satisfiable by a non-trivial instance: after
+    `a float = 3 m` and the group line `g` (indent 0), the line `{?*}` at indent 2 imports to `g` -/
+example : let env : Env := { Env.empty with
+      nodes := [{ blank ['a'] .float with value := some (.num 3), unitsRaw := some ['m'] }],
+      parents := [(0, ['g'])] }
+    Inv unitTable env ∧ InFrag (absEnv env) (.imp [['g']] none .all) ∧ '{' ∉ joinDot ([] : List Str) ∧
+    ImpPathOK env.parents 2 [] [['g']] ∧
+    (∃ s', sStep unitTable (absEnv env) (.imp [['g']] none .all) = .ok s') := by
+  intro env
+  refine ⟨⟨?_, by simp [env, Env.empty]⟩, ?_, by simp [joinDot], ?_, ?_⟩
+  · intro n hn
+    simp only [env, List.mem_singleton] at hn
+    subst hn
+    refine ⟨rfl, ⟨.num 3, rfl, by simp [blank, conforms, castScalar]⟩, rfl, ?_, by simp [blank]⟩
+    simp [blank, unitOk, isNumKw, lookupUnit, unitTable]
+  · refine ⟨by simp [WFSource], by simp [WFDest], by simp [joinDot], by simp [renderQ], trivial, ?_⟩
+    intro ss hss
+    simp only [sLookup, absEnv, env, List.map_cons, List.map_nil, List.isEmpty_cons, Bool.false_eq_true,
+      if_false, Option.some.injEq] at hss
+    subst hss
+    simp [select, sMatches]
+  · exact impPathOK_parents [(0, ['g'])] 2 []
+  · refine ⟨⟨[⟨[['a']], .float, [], some ['m'], some (.num 3), false, none, none, [], [], none⟩,
+        ⟨[['g'], ['a']], .float, [], some ['m'], some (.num 3), false, none, none, [], [], none⟩], [], false, [], []⟩, ?_⟩
+    have hf : List.filter (sMatches SQuery.all)
+        [(⟨[['a']], .float, [], some ['m'], some (.num 3), false, none, none, [], [], none⟩ : SNode)] =
+        [⟨[['a']], .float, [], some ['m'], some (.num 3), false, none, none, [], [], none⟩] := rfl
+    simp [sStep, sLookup, absEnv, env, select, hf, sReroot, sImportAll, sImportOne, absN, blank, splitDot,
+      Env.empty]
 
 /-- a property line in its documented place: "update the node at the path" (specification) and
     "update the last node" (code) are the same update -/
